@@ -375,6 +375,18 @@ class SymSpec(object):
     def length_along(self, arr, d):
         return arr.axes[d].size
 
+    def nan_to_zero(self, x):
+        return shim_np.np_shim.nan_to_num(SNum.lift(x))
+
+    def sum_prefix(self, arr, r, term):
+        """Sigma_{j <= r} term(j) over the positions of the one-dimensional array arr"""
+        zr = _zidx(r)
+
+        def t(idx):
+            e = SNum.lift(term(idx[0]))
+            return Ite(bz(And(idx[0] <= zr, e.isfin())), e.rv(), z3.RealVal(0))
+        return SNum(FIN, sym.sum_atom(arr.axes, t))
+
     def floordiv(self, a, b): return sym.num_floordiv(SNum.lift(a), SNum.lift(b))
     def is_integer(self, x): return SBool(z3.IsInt(SNum.lift(x).rv()))
     def note_index(self, arr, k): arr.axes[0].note_index(_zidx(k))
@@ -589,6 +601,8 @@ class ConcSpec(object):
         return sum(1 for i in _np.ndindex(*a.shape) if bool(pred(i)))
 
     def length_along(self, arr, d): return _np.shape(arr)[d]
+    def nan_to_zero(self, x): return float(_np.nan_to_num(float(x)))
+    def sum_prefix(self, arr, r, term): return float(sum(float(term(j)) for j in range(int(r) + 1)))
     def floordiv(self, a, b): return a // b
     def is_integer(self, x): return float(x).is_integer()
     def note_index(self, arr, k): return None
